@@ -388,7 +388,15 @@ def main(argv):
             if c.get("error"):
                 broken.append({"kind": "correspondence", "name": c["kernel"], "detail": c["error"]})
             elif c["disagreement_count"]:
-                broken.append({"kind": "correspondence", "name": c["kernel"], "detail": "%d of %d cases disagree" % (c["disagreement_count"], c["cases"]), "first": c["disagreements"][0]})
+                first = c["disagreements"][0]
+                concrete = False
+                if prop == "C16":
+                    # C16 is crash freedom: an input on which the real code panics IS a failing input
+                    for d in c["disagreements"]:
+                        if str(d.get("implementation", "")).startswith("PANIC"):
+                            first, concrete = d, True
+                            break
+                broken.append({"kind": "correspondence", "name": c["kernel"], "detail": "%d of %d cases disagree" % (c["disagreement_count"], c["cases"]), "first": first, "concrete": concrete})
 
     # 4. search (standing sweep; boosted when something above broke)
     searches = []
@@ -454,7 +462,7 @@ def main(argv):
                 obj["kind"] = "correspondence"
                 obj.update(b["first"])
             path = write_replay(prop, obj)
-            out_lines.append("VIOLATION property=%s replay=%s no-failing-input-found" % (prop, path))
+            out_lines.append("VIOLATION property=%s replay=%s%s" % (prop, path, "" if b.get("concrete") else " no-failing-input-found"))
             rc = 1
     for l in known_lines:
         print(l)
